@@ -80,9 +80,12 @@ def _setup(ctx, kind, subregions=True, nvmax=3, **kw):
         spec = gen.MeshSpec(pmin, spec.cell, spec.n, spec.dims, spec.units, spec.flip)
         ctx.event("far_mesh")
     boxes, regions = H.listed_subregions(rng, spec, kmax=3) if subregions else ({}, {})
-    mesh = H.mesh_with_subregions(ctx, "C07", spec, regions)
+    # boundary conditions are a property of the mesh that no clause mentions: selection is
+    # by position on periodic and open meshes alike
+    bc = gen.rand_bc(rng, spec.dim_names, p_none=0.6)
+    mesh = H.mesh_with_subregions(ctx, "C07", spec, regions, bc=bc)
     if mesh is None:
-        boxes, regions, mesh = {}, {}, spec.mesh()
+        boxes, regions, mesh = {}, {}, spec.mesh(bc=bc)
     nvdim = int(rng.integers(1, nvmax + 1))
     dtype = gen.pick(rng, ["float", "float", "int", "complex"])
     n = tuple(int(k) for k in spec.n)
@@ -98,7 +101,7 @@ def _setup(ctx, kind, subregions=True, nvmax=3, **kw):
     f = gen.via_history(None, df.Field(mesh, nvdim=nvdim, value=arr.copy(), valid=valid.copy(), **kwf))
     A = np.array(f.array, copy=True)   # as stored (int -> float conversion is C02's subject)
     info = {"ndim": spec.nd, "n": spec.n, "nvdim": nvdim, "dtype": dtype,
-            "dims": spec.dim_names, "n_subregions": len(boxes)}
+            "dims": spec.dim_names, "n_subregions": len(boxes), "bc": bc}
     base_sig = (spec.nd, tuple(int(min(k, 3)) for k in spec.n), nvdim, dtype, len(boxes),
                 spec.signature()[3], "default" if spec.dims is None else "named")
     return spec, mesh, boxes, f, A, valid, info, base_sig
@@ -492,6 +495,64 @@ def pad(ctx):
 
 
 # ------------------------------------------------------------------------------ kind 4
+def _check_resampled(ctx, res, A, valid, n_old, n_new, op, info):
+    """Every new cell holds value and validity of a source cell containing its centre."""
+    nd = len(n_old)
+    cands_axis = []
+    for k in range(nd):
+        per = []
+        for j in range(int(n_new[k])):
+            num, den = (2 * j + 1) * int(n_old[k]), 2 * int(n_new[k])
+            q = num // den
+            per.append([q - 1, q] if num % den == 0 else [q])
+        cands_axis.append(per)
+    bad = None
+    for idx in itertools.product(*[range(int(k)) for k in n_new]):
+        cands = [cands_axis[k][idx[k]] for k in range(nd)]
+        if not H.any_candidate_equal(res.array[idx], A, cands, valid, res.valid[idx]):
+            bad = {"index": idx, "got": res.array[idx], "got_valid": bool(res.valid[idx]),
+                   "source_cell_candidates": cands,
+                   "source_values": [A[c] for c in itertools.product(*cands)][:4],
+                   "source_valid": [bool(valid[c]) for c in itertools.product(*cands)][:4]}
+            break
+    ctx.check("C07.resample.value_and_validity", bad is None, **(bad or {}), **op, **info)
+
+
+def resample_large(ctx):
+    """A source of more than 2**16 cells (odd counts) resampled to a few cells per axis: a
+    size at which a fast path for large sources, if there is one, is the code that runs."""
+    rng = ctx.rng
+    n_old = np.array([int(rng.integers(45, 52)) | 1, int(rng.integers(41, 46)) | 1,
+                      int(rng.integers(37, 42)) | 1])[rng.permutation(3)]
+    cell = 10.0 ** rng.uniform(-9, 2) * rng.uniform(0.3, 3, 3)
+    pmin = rng.uniform(-2, 2, 3) * cell * n_old
+    dims = gen.pick(rng, [None, ["a", "b", "c"]])
+    mesh = df.Mesh(region=df.Region(p1=pmin.tolist(), p2=(pmin + cell * n_old).tolist(), dims=dims),
+                   n=[int(k) for k in n_old])
+    nv = int(rng.integers(1, 4))
+    A = rng.normal(size=(*n_old, nv))
+    valid = rng.random(tuple(n_old)) < 0.85
+    f = df.Field(mesh, nvdim=nv, value=A, valid=valid)
+    n_new = rng.integers(2, 15, 3)
+    if rng.random() < 0.5:
+        n_new[int(rng.integers(0, 3))] = int(n_old[0]) + int(rng.integers(1, 9))  # one axis refined
+    op = {"op": "resample", "n_new": n_new, "style": "large source"}
+    info = {"ndim": 3, "n": n_old, "nvdim": nv, "cells": int(np.prod(n_old))}
+    ctx.sig(("resample", "large", nv), nontrivial=True)
+    ctx.event("large_meshes")
+    okc, res = ctx.expect_ok("C07.resample.accepted", lambda: f.resample(tuple(int(k) for k in n_new)),
+                             what=dict(info, **op))
+    if not okc:
+        return
+    ok_f = (res.array.shape == (*[int(k) for k in n_new], nv)
+            and res.valid.shape == tuple(int(k) for k in n_new))
+    ctx.check("C07.resample.shape", ok_f, got=res.array.shape, **op, **info)
+    if ok_f:
+        _check_resampled(ctx, res, A, valid, n_old, n_new, op, info)
+    ctx.check("C07.resample.source_untouched",
+              np.array_equal(f.array, A) and np.array_equal(f.valid, valid), **op, **info)
+
+
 def resample(ctx):
     rng = ctx.rng
     spec, mesh, boxes, f, A, valid, info, bsig = _setup(ctx, "resample",
@@ -533,25 +594,7 @@ def resample(ctx):
               and bool(np.all(np.abs(r.pmax - spec.pmax) <= tol)),
               pmin_got=r.pmin, pmax_got=r.pmax, pmin_expected=spec.pmin,
               pmax_expected=spec.pmax, n_got=res.mesh.n, **op, **info)
-    # every new cell holds value and validity of a source cell containing its centre
-    cands_axis = []
-    for k in range(nd):
-        per = []
-        for j in range(int(n_new[k])):
-            num, den = (2 * j + 1) * int(n_old[k]), 2 * int(n_new[k])
-            q = num // den
-            per.append([q - 1, q] if num % den == 0 else [q])
-        cands_axis.append(per)
-    bad = None
-    for idx in itertools.product(*[range(int(k)) for k in n_new]):
-        cands = [cands_axis[k][idx[k]] for k in range(nd)]
-        if not H.any_candidate_equal(res.array[idx], A, cands, valid, res.valid[idx]):
-            bad = {"index": idx, "got": res.array[idx], "got_valid": bool(res.valid[idx]),
-                   "source_cell_candidates": cands,
-                   "source_values": [A[c] for c in itertools.product(*cands)][:4],
-                   "source_valid": [bool(valid[c]) for c in itertools.product(*cands)][:4]}
-            break
-    ctx.check("C07.resample.value_and_validity", bad is None, **(bad or {}), **op, **info)
+    _check_resampled(ctx, res, A, valid, n_old, n_new, op, info)
     ctx.check("C07.resample.source_untouched",
               np.array_equal(f.array, A) and np.array_equal(f.valid, valid), **op, **info)
 
@@ -627,6 +670,8 @@ def outside(ctx):
 
 
 def run_case(ctx, i):
+    if i % 1800 == 907:
+        return resample_large(ctx)
     kind = i % 6
     if kind == 0:
         plane(ctx)
